@@ -459,6 +459,21 @@ def ob_conv_arrays():
             wantd = sum(popcount(p ^ q) for p, q in zip(vals, vals[::-1]))
             if int(count_bit_errors(a, b)) != wantd:
                 return {"count_bit_errors on %s arrays" % np.dtype(dt).name: int(count_bit_errors(a, b)), "hamming distance": wantd}
+        # the count is the Hamming distance of the VALUES whatever the largest value that occurs: frames whose largest index is an exact
+        # power of two (a 16-point frame that happens to use only symbols 0..8), scalars, short frames that do not use the whole alphabet
+        for k in range(0, 62):
+            top = 1 << k
+            for a_, b_ in ((top, 0), (top, top - 1 if top > 1 else 0), (np.array([top, 0, 1]), np.array([0, 0, top])),
+                           (np.array([[top, 3], [0, top]]), np.array([[0, 3], [top, top]]))):
+                want = int(sum(popcount(int(p) ^ int(q)) for p, q in zip(np.ravel(a_), np.ravel(b_))))
+                got = int(np.sum(count_bit_errors(a_, b_)))
+                if got != want:
+                    return {"count_bit_errors": got, "hamming distance": want, "first": np.ravel(a_).tolist(), "second": np.ravel(b_).tolist()}
+                if isinstance(a_, np.ndarray) and a_.ndim == 2:
+                    per = np.asarray(count_bit_errors(a_, b_, axis=0)).ravel()
+                    wantp = [sum(popcount(int(a_[i, j]) ^ int(b_[i, j])) for i in range(2)) for j in range(2)]
+                    if [int(v) for v in per] != wantp:
+                        return {"count_bit_errors(axis=0)": [int(v) for v in per], "expected": wantp, "largest value": top}
         return None
 
     def check_long(case):
